@@ -45,10 +45,11 @@ def callers_of(prog, path):
     return set(cg.callers(path))
 
 
-def inlinable(prog, callee, into_root, keep=None, private_only=False, expanded=()):
+def inlinable(prog, callee, into_root, keep=None, private_only=False, expanded=(), multi=False):
     """may `callee` (Body) be inlined into the body whose root path is `into_root`.
     keep: regex of callee paths that must stay calls (the functions a rule anchors on); private_only: skip `pub` items;
-    expanded: paths already expanded into the root (so that a -> h1 -> h2 expands fully: h2's caller h1 counts as the root)."""
+    expanded: paths already expanded into the root (so that a -> h1 -> h2 expands fully: h2's caller h1 counts as the root);
+    multi: a non-`pub` helper shared by several functions is expanded too (the expansion is per root, so this is safe)."""
     if callee is None or callee.kind not in ("Fn", "AssocFn") or callee.impl_trait:
         return False
     if keep and re.search(keep, callee.path):
@@ -68,15 +69,17 @@ def inlinable(prog, callee, into_root, keep=None, private_only=False, expanded=(
     for c in cs:
         cb = prog.body(c)
         roots.add((cb.closure_root or cb.path) if cb is not None else c)
+    if multi and (callee.j.get("vis") or "") != "Public" and into_root in roots:
+        return True
     return roots <= ({into_root} | set(expanded)) and bool(roots)
 
 
-def inlined(prog, path, depth=MAX_DEPTH, keep=None, private_only=False, nested=False):
+def inlined(prog, path, depth=MAX_DEPTH, keep=None, private_only=False, nested=False, multi=False):
     """Body for `path` with inlinable callees expanded (cached on the program); the body itself when nothing is inlinable.
     The goto that replaces an expanded call carries `inl_call` (callee path), `inl_dest` (the call's destination place) and
     `inl_ret_t` (the block the call returned to); argument-passing statements carry `inl_arg`, the result copy `inl_ret`."""
     cache = prog.__dict__.setdefault("_inl_cache", {})
-    ckey = (path, keep, private_only, depth, nested)
+    ckey = (path, keep, private_only, depth, nested, multi)
     if ckey in cache:
         return cache[ckey]
     path_key = path
@@ -103,7 +106,7 @@ def inlined(prog, path, depth=MAX_DEPTH, keep=None, private_only=False, nested=F
         f = t["fn"]
         cpath = f.get("resolved") if f.get("resolved_local") else (f.get("path") if f.get("local") else None)
         callee = prog.body(cpath) if cpath else None
-        if callee is None or len(t["args"]) != callee.arg_count or not inlinable(prog, callee, root, keep, private_only, expanded if nested else ()):
+        if callee is None or len(t["args"]) != callee.arg_count or not inlinable(prog, callee, root, keep, private_only, expanded if nested else (), multi):
             continue
         if blk["cleanup"]:
             continue
